@@ -54,7 +54,7 @@ LATTICES = {
     "lower": [[4.0, 0, 0], [1.2, 4.4, 0], [0.6, -0.8, 5.0]],
 }
 
-RD_CASES = [("tric2", "211"), ("tric2", "311"), ("cscl", "nd1"), ("sc1", "nd2"), ("cscl", "221"), ("tric2", "nd4")]
+RD_CASES = [("tric2", "211"), ("tric2", "311"), ("cscl", "nd1"), ("sc1", "nd2"), ("cscl", "221"), ("tric2", "nd4"), ("hex2", "211"), ("mono2", "nd1"), ("bccI", "211"), ("tric2", "221")]
 
 
 def units(tier):
